@@ -98,6 +98,15 @@ func c07Bodies() []c07Body {
 		c07Body{"valid-then-oversize-flag-02", "unjudged", func(p Proto, kind Kind, js bool) []byte {
 			return append(refwire.Envelope(0, c06ValidMsg(js)), refwire.Envelope(2, []byte(`{"metadata":{"x-pad":["`+strings.Repeat("a", 3000)+`"]}}`))...)
 		}},
+		// zero-length envelopes after messages with content: each frame is its own message
+		c07Body{"valid-then-zero-length", "unjudged", func(p Proto, kind Kind, js bool) []byte {
+			return append(refwire.Envelope(0, c06ValidMsg(js)), refwire.Envelope(0, nil)...)
+		}},
+		c07Body{"zero-valid-zero-other", "unjudged", func(p Proto, kind Kind, js bool) []byte {
+			b := append(refwire.Envelope(0, nil), refwire.Envelope(0, c06ValidMsg(js))...)
+			b = append(b, refwire.Envelope(0, nil)...)
+			return append(b, refwire.Envelope(0, codecMarshal(js, &BV{Value: []byte("other")}))...)
+		}},
 		c07Body{"valid-then-oversize-flag-80", "unjudged", func(p Proto, kind Kind, js bool) []byte {
 			return append(refwire.Envelope(0, c06ValidMsg(js)), refwire.Envelope(0x80, []byte("x-pad: "+strings.Repeat("a", 3000)+"\r\n"))...)
 		}},
@@ -176,6 +185,14 @@ func c07Check(c *ev.Collector, k c07Case) {
 		}
 		if k.Body != "valid" {
 			tags = append(tags, "body="+k.Body)
+		}
+	}
+	if k.Body == "empty" && k.Proto == PConnect && k.Kind == KUnary && k.CT == "exact" {
+		// a unary Connect body is the message itself: zero bytes are the zero message for the
+		// binary codec and not a JSON document for the JSON codec
+		want = "ok"
+		if k.JSON {
+			want = "invalid_argument"
 		}
 	}
 	userRuns := 0
@@ -364,7 +381,7 @@ func c07Check(c *ev.Collector, k c07Case) {
 			}
 		}
 		// user code only ever sees messages that decode from the request
-		if len(delivered) > 0 && (k.Body == "raw" || want != "ok") {
+		if len(delivered) > 0 {
 			rq := refwire.DecodeRequest(wireProto(sel), k.Kind == KUnary, "POST", req.Header, body, true, AnyDecompress)
 			i := 0
 			for _, d := range delivered {
@@ -383,6 +400,29 @@ func c07Check(c *ev.Collector, k c07Case) {
 				if !found {
 					viol("delivered-messages-decode", "phantom", "user code received %s which is not the decoding of any frame of the request (frames %d, problems %v)", shortBytes(d), len(rq.Msgs), rq.Problems)
 					break
+				}
+			}
+		}
+		// a well-formed multi-message body answered ok: the draining handler received exactly its frames
+		if code == "ok" && k.Kind.ClientStreams() && !(sel == PConnect && k.Kind == KUnary) && encAlg == "" {
+			rq := refwire.DecodeRequest(wireProto(sel), false, "POST", req.Header, body, true, AnyDecompress)
+			if len(rq.Problems) == 0 {
+				var wantMsgs [][]byte
+				decodable := true
+				for _, raw := range rq.Msgs {
+					if len(raw) == 0 {
+						wantMsgs = append(wantMsgs, nil)
+						continue
+					}
+					m, err := codecUnmarshalBV(k.JSON, raw)
+					if err != nil {
+						decodable = false
+						break
+					}
+					wantMsgs = append(wantMsgs, m.Value)
+				}
+				if decodable && !equalMsgs(delivered, wantMsgs) {
+					viol("delivered-messages-decode", "sequence", "user code received %s, the request's frames decode to %s", shortMsgs(delivered), shortMsgs(wantMsgs))
 				}
 			}
 		}
